@@ -358,6 +358,15 @@ Respellings(o, ens) ==
       \cup (IF ns.u = ens.u THEN {withName(short)} ELSE {})                  \* inherited
       \cup (IF ~IsNullNs(ns) THEN {withName(full), withBoth(full, N("ignored", <<105, 103, 110, 111, 114, 101, 100>>))} ELSE {})  \* dotted full name; namespace then ignored
 
+ForeignKeys(kind) ==
+  CASE kind = "array" -> {"size", "symbols"}
+    [] kind = "map" -> {"fields"}
+    [] kind = "record" -> {"items"}
+    [] kind = "enum" -> {"values"}
+    [] kind = "fixed" -> {"symbols"}
+    [] kind = "field" -> {"size"}
+    [] OTHER -> {}
+
 EditsAt(t, s) ==
   LET x == At(t, s.p)
       put(name, y) == Edit(name, Replace(t, s.p, y))
@@ -373,6 +382,9 @@ EditsAt(t, s) ==
        \cup (IF s.kind = "field" /\ SimpleDefault(Get(x, "type")) # <<>> THEN addKey("AddDefault", "default", SimpleDefault(Get(x, "type"))[1]) ELSE {})
        \cup (IF s.kind = "field" THEN addKey("AddOrder", "order", Str_desc) ELSE {})
        \cup addKey("AddAttribute", "foo", AttrVal)
+       \* an attribute whose key is structural for ANOTHER kind of node is an attribute like any other here
+       \cup UNION {IF HasKey(x, k) THEN {} ELSE {put("AddForeignKeyAttribute", [x EXCEPT !.kv = Append(@, <<k, AttrVal>>)])}
+                   : k \in ForeignKeys(s.kind)}
        \cup (IF s.kind \in NamedKinds THEN {put("RespellNamespace", y) : y \in Respellings(x, s.ens) \ {x}} ELSE {})
   ELSE IF s.kind = "prim" THEN
        {put("WrapPrimitive", JObj(<< <<"type", x>> >>))}
